@@ -1,8 +1,8 @@
-(* C13 (f, continued) - the pack format parser: the two places where lstrlib.c and strpack.nelua compute
-   differently are proved equal: the padding (Lua: ntoalign = (align - (total & (align-1))) & (align-1);
-   Nelua: (addr + align-1) & ~(align-1) in usize) and the number reader (Lua's int loop with its overflow cut,
-   Nelua's usize loop).  The option-by-option equality of the whole packsize loop is NOT proved (both sides
-   are run against each other and against the real code on every check). *)
+(* C13 (f, continued) - the pack format parser as string.packsize runs it: wherever lstrlib.c's parser returns a
+   size, strpack.nelua returns the same size (packsize_eq_lua).  The two places where the codes compute
+   differently are the padding (Lua: ntoalign = (align - (total & (align-1))) & (align-1); Nelua:
+   (addr + align-1) & ~(align-1) in usize) and the number reader (Lua's int loop with its overflow cut, Nelua's
+   usize loop); the rest is the option table, compared option by option (step_eq). *)
 From C13 Require Import Model ModelPackFmt ProofsIdx.
 Local Open Scope Z_scope.
 
